@@ -66,6 +66,9 @@ func VerifC10Crash() {
 	before := copyModel(m)
 	after := copyModel(m)
 	op := verifrt.Choice(6)
+	if p := verifrt.Param("pinop", 0); p > 0 {
+		op = p - 1 // development aid / focused entries: only this operation is interrupted
+	}
 	node := verifrt.Choice(K)
 	ref := ociRefs[verifrt.Choice(len(ociRefs))]
 	// expected tag mapping after the operation (if it completes)
